@@ -1,6 +1,7 @@
 import DepsDev.Drive.Loop
 import DepsDev.Model.Maven.Pipeline
 import DepsDev.Model.Maven.Clauses
+import DepsDev.Model.Maven.Api
 import DepsDev.Ref.MavenModel
 open DepsDev DepsDev.Model.Maven
 
@@ -10,8 +11,13 @@ open DepsDev DepsDev.Model.Maven
 * `ref <lineage>`      → `ok deps=[…] mgmt=[…]` | `err`      (the reference semantics)
 * `classify <lineage>` → `ok a=0 b=0 c=0 d=0 f=0 g=0`        (1 = hypothesis clause violated)
 * `interp <n> (<k> <v>)* <s>` → `ok <hex result> <0|1>`
+* `apireq <lineage'>`    → `ok R[…]` | `err`   (model of `APIClient.Requirements` over the fake service)
+* `apidirect <lineage'>` → `ok R[…]` | `err`   (the documented pipeline on the API's view of the lineage)
+* `deptype <dep> <origin>` → `ok T[…] D[…]/o=…` | `ok T[…] err` | `ok T[…] panic`
+* `typedep <type>`         → `ok D[…]/o=…` | `err` | `panic`
 
-`<lineage>` is the token stream `L <n> pom…` documented in harness/cmd/c15/ast.go. -/
+`<lineage>` is the token stream `L <n> pom…` documented in harness/cmd/c15/ast.go;
+`<lineage'>` is that or the compact chain `C <n> <back|x> <0|1>` (harness/cmd/c15/api.go). -/
 
 namespace C15Driver
 
@@ -204,6 +210,75 @@ def fmtResult : Option (List Dep × List Dep) → String
 
 def b01 (holds : Bool) : String := if holds then "0" else "1"
 
+/-! ### the API path -/
+
+open DepsDev.Model.Maven.Api in
+def pLineageArg : List String → Option Lineage
+  | ["C", n, back, imp] => do
+    let n ← natOfDigits n.toList
+    if n > 400 then none else
+    let back ← (if back == "x" then some none else (natOfDigits back.toList).map some)
+    match back with
+    | some b => if b > n then none else pure ()
+    | none => pure ()
+    if imp == "0" then some (chainLineage n back false)
+    else if imp == "1" then some (chainLineage n back true)
+    else none
+  | ts =>
+    match pLineage ts with
+    | some L => if wf L then some L else none
+    | none => none
+
+def bit (b : Bool) : String := if b then "1" else "0"
+
+def optHex : Option Bytes → String
+  | none => "~"
+  | some b => Bytes.toHex b
+
+def fmtType (t : Api.DType) : String :=
+  "m=" ++ bit t.dev ++ bit t.opt ++ bit t.test ++ "/s=" ++ optHex t.scope ++ "/c=" ++ optHex t.cls ++ "/t=" ++ optHex t.typ ++
+    "/o=" ++ optHex t.origin ++ "/e=" ++ optHex t.excl
+
+def fmtReqs : Option (List Api.Req) → String
+  | none => "err"
+  | some rs => "ok R[" ++ "+".intercalate (rs.map fun r => Bytes.toHex r.name ++ "/" ++ Bytes.toHex r.ver ++ "/" ++ fmtType r.typ) ++ "]"
+
+def fmtBack : Api.Outcome (Dep × Bytes) → String
+  | .ok (d, o) => "D" ++ fmtDeps [d] ++ "/o=" ++ Bytes.toHex o
+  | .err => "err"
+  | .panic => "panic"
+
+/-- `~` (absent) or a hex string (`-` = empty) after the two-character prefix -/
+def optOf (pre : String) (x : String) : Option (Option Bytes) :=
+  if x.startsWith pre then
+    let v := (x.drop 2).toString
+    if v == "~" then some none
+    else if v.isEmpty then none
+    else (Bytes.ofHex v).map some
+  else none
+
+def bitOf : Char → Option Bool
+  | '0' => some false
+  | '1' => some true
+  | _ => none
+
+def typeOfToken (s : String) : Option Api.DType :=
+  match (splitOnChar '/' s.toList).map String.ofList with
+  | [m, sc, c, t, o, e] =>
+    match m.toList with
+    | ['m', '=', x, y, z] => do
+      let dev ← bitOf x
+      let opt ← bitOf y
+      let test ← bitOf z
+      let sc ← optOf "s=" sc
+      let c ← optOf "c=" c
+      let t ← optOf "t=" t
+      let o ← optOf "o=" o
+      let e ← optOf "e=" e
+      pure ⟨dev, opt, test, sc, c, t, o, e⟩
+    | _ => none
+  | _ => none
+
 def handle : List String → String
   | "pom" :: ts =>
     match pLineage ts with
@@ -220,6 +295,30 @@ def handle : List String → String
         "ok a=" ++ b01 (Clauses.clauseA L) ++ " b=" ++ b01 (Clauses.clauseB L) ++ " c=" ++ b01 (Clauses.clauseC L) ++
         " d=" ++ b01 (Clauses.clauseD L) ++ " f=" ++ b01 (Clauses.clauseF L) ++ " g=" ++ b01 (Clauses.clauseG L)
       else "bad-op"
+    | none => "bad-op"
+  | "apireq" :: ts =>
+    match pLineageArg ts with
+    | some L => fmtReqs (Api.apiOfLineage L)
+    | none => "bad-op"
+  | "apidirect" :: ts =>
+    match pLineageArg ts with
+    | some L => fmtReqs (Api.directOnView L)
+    | none => "bad-op"
+  | "deptype" :: ts =>
+    match pDep ts with
+    | some (d, [o]) =>
+      match Bytes.ofHex o with
+      | some origin =>
+        let t := Api.mavenDepType d origin
+        "ok T[" ++ fmtType t ++ "] " ++ fmtBack (Api.mavenDepTypeToDependency t)
+      | none => "bad-op"
+    | _ => "bad-op"
+  | ["typedep", tok] =>
+    match typeOfToken tok with
+    | some t =>
+      match Api.mavenDepTypeToDependency t with
+      | .ok r => "ok " ++ fmtBack (.ok r)
+      | r => fmtBack r
     | none => "bad-op"
   | "interp" :: ts =>
     match pProps ts with
